@@ -437,4 +437,90 @@ theorem history_value (U : Universe) (m x : Nat) (noop : Bool) (hist : List HSte
   have hI := hinv_history U m x hist _ (hinv_empty U m x noop) hok
   exact (memo_correct U m x W _ _ rq E hrq hI.sound hI.kept ha hext).2.2.1 hs
 
+/-! ## Load-free pipelines: the hypothesis on loads holds trivially -/
+
+/-- no function of this version calls `dds.load` -/
+def World.loadFree (W : World) : Prop := ∀ f ∈ W.funs, ∀ it ∈ f.items, ∀ p l, it ≠ Item.load p l
+
+def LoadFreeFn (m : Nat) (W : World) (fuel : Nat) : Prop :=
+  ∀ (refs : Refs) (stack : List String) (fn : Fn) (ctx : ArgCtx) (fis : FIS) (r : Refs), fn ∈ W.funs →
+    analyse m W fuel refs stack fn ctx = .ok (fis, r) → fis.allLoads = []
+
+theorem allLoadsL_snoc (a : List FIS) (f : FIS) (h1 : FIS.allLoadsL a = []) (h2 : f.allLoads = []) :
+    FIS.allLoadsL (a ++ [f]) = [] := by
+  induction a with
+  | nil => simp [FIS.allLoadsL, h2]
+  | cons x a ih =>
+    simp only [FIS.allLoadsL, append_eq_nil_iff] at h1
+    simp only [cons_append, FIS.allLoadsL, h1.1, ih h1.2, append_nil]
+
+theorem loadfree_items {m : Nat} {W : World} {fuel : Nat} (hIH : LoadFreeFn m W fuel) (fn : Fn) (isig : Sg)
+    (stack : List String) :
+    ∀ (its : List Item), (∀ it ∈ its, ∀ p l, it ≠ Item.load p l) → ∀ (s sfin : VisitSt),
+      visitItems m W (analyse m W fuel) fn isig stack s its = .ok sfin →
+      s.loads = [] → FIS.allLoadsL s.inters = [] → sfin.loads = [] ∧ FIS.allLoadsL sfin.inters = []
+  | [], _, s, sfin, hv, h1, h2 => by
+    simp only [visitItems, pure, Except.pure, Except.ok.injEq] at hv
+    subst hv; exact ⟨h1, h2⟩
+  | it :: its, hnl, s, sfin, hrest, h1, h2 => by
+    obtain ⟨t, hv, hr⟩ := visitItems_cons_inv hrest
+    have hnl' : ∀ x ∈ its, ∀ p l, x ≠ Item.load p l := fun x hx => hnl x (mem_cons_of_mem _ hx)
+    have step : t.loads = [] ∧ FIS.allLoadsL t.inters = [] := by
+      have one : ∀ {f : String} {args kwargs line g c named fis rf},
+          CallStep m W (analyse m W fuel) fn isig stack s f args kwargs line g c named fis rf → fis.allLoads = [] :=
+        fun hstep => hIH _ _ _ _ _ _ (List.mem_of_find?_eq_some hstep.find) hstep.sub
+      cases it with
+      | call f l =>
+        obtain ⟨g, c, named, fis, rf, hstep, e⟩ := plain_inv (by simpa [visitItem] using hv)
+        rw [e]; exact ⟨h1, allLoadsL_snoc _ _ h2 (one hstep)⟩
+      | callArgs f args kwargs rtA rtK l =>
+        obtain ⟨g, c, named, fis, rf, hstep, e⟩ := plain_inv (by simpa [visitItem] using hv)
+        rw [e]; exact ⟨h1, allLoadsL_snoc _ _ h2 (one hstep)⟩
+      | keep path f args kwargs rtA rtK l =>
+        obtain ⟨g, c, named, fis, rf, hstep, _, e⟩ := keep_inv hv
+        rw [e]; exact ⟨h1, allLoadsL_snoc _ _ h2 (by rw [withPath_allLoads]; exact one hstep)⟩
+      | ref f l =>
+        rcases ref_inv hv with ⟨_, e⟩ | ⟨_, g, c, named, fis, rf, hstep, e⟩
+        · rw [e]; exact ⟨h1, h2⟩
+        · rw [e]; exact ⟨h1, allLoadsL_snoc _ _ h2 (one hstep)⟩
+      | load path l => exact absurd rfl (hnl _ mem_cons_self path l)
+      | evalCall f l => simp [visitItem] at hv
+    exact loadfree_items hIH fn isig stack its hnl' t sfin hr step.1 step.2
+
+theorem loadfree_fn (m : Nat) (W : World) (hW : W.loadFree) : ∀ fuel, LoadFreeFn m W fuel
+  | 0 => by
+    intro refs stack fn ctx fis r _ ha
+    exact absurd ha analyse_zero
+  | k + 1 => by
+    intro refs stack fn ctx fis r hfn ha
+    obtain ⟨ev, io, sv, b, d, ret, a⟩ := analyse_inv ha
+    obtain ⟨l1, l2⟩ := loadfree_items (loadfree_fn m W hW k) fn _ stack fn.items (hW fn hfn) _ sv a.hvisit rfl rfl
+    have hd : d = [] := by
+      have := lookupRefs_fst a.hdeps
+      rw [l1] at this
+      simpa [dedupStr] using this
+    rw [a.hfis]
+    simp only [FIS.allLoads, hd, l2, map_nil, append_nil]
+
+/-- a version without `dds.load` meets the hypothesis on loads, against any store -/
+theorem externalLoads_of_loadFree {m : Nat} {W : World} (hW : W.loadFree) (S : PStore) (rq : Request) :
+    ExternalLoads m W S rq := by
+  intro fn env fis paths ha p hp
+  obtain ⟨named, refs0, fis0, r, P⟩ := analysisPhase_inv ha
+  have h0 := loadfree_fn m W hW W.fuel refs0 [] fn ⟨named, none⟩ fis0 r (List.mem_of_find?_eq_some P.hfind) P.hana
+  have : fis.allLoads = [] := by
+    rw [P.hfis]
+    cases entryPathOf rq fn with
+    | none => exact h0
+    | some q => rw [withPath_allLoads]; exact h0
+  rw [this] at hp; cases hp
+
+/-- histories of load-free versions: `histOK` needs nothing about loads -/
+theorem histOK_of_loadFree (U : Universe) (m x : Nat) : ∀ (hist : List HStep) (h : HState),
+    (∀ s ∈ hist, s.ok U x ∧ s.world.loadFree) → histOK U m x h hist
+  | [], _, _ => trivial
+  | s :: ss, h, hok =>
+    ⟨(hok s mem_cons_self).1, externalLoads_of_loadFree (hok s mem_cons_self).2 _ _,
+      histOK_of_loadFree U m x ss _ (fun t ht => hok t (mem_cons_of_mem _ ht))⟩
+
 end Dds
